@@ -106,7 +106,8 @@ Definition handle (req : sexp) : sexp :=
           match compile s with
           | CExpr e =>
               tagged "refs" [tagged "vars" (map (fun x => tagged "str" (sexp_of_str x)) (sort_dedup (ref_vars e)));
-                             tagged "funs" (map (fun x => tagged "str" (sexp_of_str x)) (sort_dedup (ref_funs e)))]
+                             tagged "funs" (map (fun x => tagged "str" (sexp_of_str x)) (sort_dedup (ref_funs e)));
+                             tagged "closed" [Atom (if no_free_at e then "true" else "false")]]
           | CReject => Atom "(reject)"
           | COutOfFuel => Atom "(out-of-fuel)"
           end
